@@ -136,7 +136,7 @@ def main():
         ]
         mixed = [("strong", ["B.lp", "a.lp"]), ("external", ["B.lp", "a.lp", "t.ug"]), ("external", ["a.lp", "B.lp", "Z.ug", "t.ug"]), ("strong", ["B.lp", "a.lp", "m.lp"])]
         if tier == "quick":
-            sets = [sets[0], sets[1], sets[4], sets[6], sets[7]] + mixed[:3]
+            sets = [sets[0], sets[1], sets[3], sets[4], sets[6], sets[7]] + mixed[:3]
         else:
             sets = sets + mixed
         jobs = []
